@@ -35,8 +35,12 @@ func (k *kssState) P(key *world.Key) *big.Int {
 }
 
 func (k *kssState) participates(pk *gabikeys.PublicKey) bool {
-	p, ok := k.keys[pk.Issuer]
-	return ok && p == pk
+	for _, p := range k.keys {
+		if p == pk {
+			return true
+		}
+	}
+	return false
 }
 
 // kssTranscript is everything exchanged in one run of the keyshare protocol.
